@@ -78,7 +78,7 @@ TagWritten(t, tp) ==
 (***************************************************************************)
 M0(opt) == [st |-> "stream_start", states |-> <<>>, events |-> <<>>, indents |-> <<>>, indent |-> NoneI, flow |-> 0,
             root |-> FALSE, seqc |-> FALSE, mapc |-> FALSE, sk |-> FALSE, w |-> S!W0(0, TRUE, TRUE), items |-> <<>>,
-            tp |-> {}, style |-> "-", outcome |-> "run", why |-> "-", trail |-> {}, diag |-> {}, opt |-> opt, ndocs |-> 0,
+            tp |-> {}, style |-> "-", outcome |-> "run", why |-> "-", trail |-> {}, diag |-> {}, opt |-> opt, ndocs |-> 0, lysite |-> FALSE,
             snaps |-> <<>>]
 
 Fail(m, why) == [m EXCEPT !.outcome = "EmitterError", !.why = why]
@@ -271,8 +271,11 @@ ExpectDocumentStart(m, ev, first) ==
                  implicit == first /\ ~ev.x /\ ~x.opt.canonical /\ ev.ver = "" /\ ev.tg = "" /\ ~emptydoc
                  \* the defect site of libyaml: an implicit document start in front of an empty plain root
                  x1 == IF implicit /\ RootWritesNothing(x) THEN [x EXCEPT !.diag = @ \cup {"empty-document-not-forced-explicit"}] ELSE x
+                 \* the explicit start is owed to check_empty_document alone (where libyaml, which lacks it, differs)
+                 x1b == IF ~implicit /\ emptydoc /\ first /\ ~ev.x /\ ~x.opt.canonical /\ ev.ver = "" /\ ev.tg = ""
+                        THEN [x1 EXCEPT !.lysite = TRUE] ELSE x1
                  x2 == IF implicit THEN x1
-                       ELSE LET y == WriteInd(WriteIndent(x1), <<45, 45, 45>>, TRUE, FALSE, FALSE, Tok("---"))
+                       ELSE LET y == WriteInd(WriteIndent(x1b), <<45, 45, 45>>, TRUE, FALSE, FALSE, Tok("---"))
                             IN  IF y.opt.canonical THEN WriteIndent(y) ELSE y
              IN  Goto([x2 EXCEPT !.ndocs = @ + 1], "document_root"))
   ELSE IF ev.k = "StreamEnd"
@@ -339,7 +342,8 @@ Pop(m) == [m EXCEPT !.events = Tail(@), !.trail = {}]
 Step(m) ==
   LET ev == m.events[1]
       p == Pop(m)
-  IN  CASE m.st = "stream_start" -> ExpectStreamStart(p, ev)
+      r ==
+      CASE m.st = "stream_start" -> ExpectStreamStart(p, ev)
         [] m.st = "nothing" -> ExpectNothing(p, ev)
         [] m.st = "first_document_start" -> ExpectDocumentStart(p, ev, TRUE)
         [] m.st = "document_start" -> ExpectDocumentStart(p, ev, FALSE)
@@ -357,6 +361,7 @@ Step(m) ==
         [] m.st = "block_mapping_key" -> ExpectBlockMappingKey(p, ev, FALSE)
         [] m.st = "block_mapping_simple_value" -> ExpectBlockMappingSimpleValue(p, ev)
         [] m.st = "block_mapping_value" -> ExpectBlockMappingValue(p, ev)
+  IN  Tr(r, m.st)
 States == {"stream_start", "nothing", "first_document_start", "document_start", "document_end", "document_root",
            "first_flow_sequence_item", "flow_sequence_item", "first_flow_mapping_key", "flow_mapping_key",
            "flow_mapping_simple_value", "flow_mapping_value", "first_block_sequence_item", "block_sequence_item",
